@@ -200,6 +200,8 @@ def inject_file(ctx, tag, ops):
             if l.startswith("row "):
                 t = l.split()
                 rows_seen.setdefault(t[1], set()).add(t[2])
+                if len(t) > 3:
+                    ctx.count("inject.decision-branch.%s.%s" % (t[1], t[3]))   # deciding clause of the documented cascade, per call site
             if l.startswith("feat "):
                 for ft in (l.split()[1].split(",") if l.split()[1] != "-" else []):
                     ctx.count("inject.feature.%s" % ft)
@@ -223,10 +225,11 @@ def inject_file(ctx, tag, ops):
         lt, gt = lean_v.split(), go_v.split()
         ctx.count("inject.verdict.%s" % "-".join(gt[:2]))
         # the oracle's exact classification of the known findings F10e / F10g (the Lean monitor says "idempotent <component>")
-        known_class = gt[0] == "FAIL" and gt[1] in ("idempotent-podports-user-proxy-ports", "idempotent-sidecar-env-order-cluster-vars")
+        known_class = gt[0] == "FAIL" and gt[1] in ("idempotent-podports-user-proxy-ports", "idempotent-sidecar-env-order-cluster-vars",
+                                                    "cronjob-pod-template-annotations-ignored")
         # clauses only the Go oracle can see (labels / env values are digests in the reduced pods)
-        go_only = gt[0] == "FAIL" and gt[1] in ("network-label", "network-env", "path-env", "injected-annotations", "status-fields")
-        if lt[:2] != gt[:2] and not (known_class and lt[:2] == ["FAIL", "idempotent"]) and not go_only:
+        go_only = gt[0] == "FAIL" and gt[1] in ("network-label", "network-env", "path-env", "injected-annotations", "status-fields", "preserve-ephemeral")
+        if lt[:2] != gt[:2] and not (known_class and lt[0] == "FAIL") and not go_only:
             ctx.tie_broken("monitor-vs-oracle:inject",
                            "the Lean monitor and the Go oracle judge the same run differently: lean=%r oracle=%r" % (lean_v, go_v),
                            {"stream": "inject", "ops": c})
@@ -314,9 +317,20 @@ def run(ctx):
         "'user container' = container whose name is not istio-proxy / istio-init / istio-validation / enable-core-dump (those are merged, may "
         "move, must not vanish); 'user volume' = volume whose name the result's (truthful) status annotation does not list as injected; only "
         "name, image, command, args, ports of a user container are promised",
-        "a pod names at most one template that defines istio-proxy; a user istio-proxy written as an init container asks for the native placement",
+        "a pod names at most one template that defines istio-proxy; a user istio-proxy written as an init container asks for the native placement; "
+        "the test-only `custom` template of testdata (it patches istio-proxy under `containers`) is not combined with the native placement",
         "manual injection (kube-inject) decides with policy enabled and no selectors whatever an injector it consults is configured with "
         "(IntoObject falls back to local injection when that injector declines)",
+        "kube-inject observes the LAST item of a List / the last document of a file; the items before it (an item of an unknown kind, a "
+        "workload that says never) must come back unchanged, further workload items are not judged individually",
+        "a repository fixture that is an already injected pod (carries a status annotation) is run under the `default` rendering only",
+        "the merge loop of mergeOrAppendProbers with a colliding key is unreachable by injecting the same pod twice since fix 2ef5ee4 and is "
+        "not judged; serveInject error paths (bad content type, undecodable body) are not driven",
+        "pods in one of the two registered known-finding classes (about 7% of the injected pods of a run: cluster/network variables plus a "
+        "post-processed variable, resp. a user istio-proxy with ports) are judged for idempotence only through the exact prediction of "
+        "that class (harness knownClass); for them the Lean monitor only says `idempotent <component>`",
+        "ephemeral containers and everything of a user container outside name/image/command/args/ports are covered by idempotence digests "
+        "and by Go-oracle-only clauses (preserve-ephemeral), not by the Lean Preserves predicate",
         "not exercised: OpenShift UID block, DetectNativeSidecar from node versions, ProxyConfig CRs, config/mesh reload through the watcher, "
         "template functions env / applicationPorts (no shipped template calls them), openshift profile",
     ]
@@ -338,12 +352,25 @@ def run(ctx):
     if not have_table:
         return
     ctx.exhaustive = True
+    # what `exhaustive: true` and `level: proof` cover (the evidence schema has one flag for the whole check):
+    ctx.extra["exhaustive_scope"] = ("ONLY the decision table: the real injectRequired on all 1200 abstract rows x 10 realisation variants, "
+                                     "kernel-checked against the specification. The call sites (Webhook.inject, IntoObject) and the second half of "
+                                     "the statement (idempotence, preservation) are PARTIAL: observed on fixtures and generated inputs through "
+                                     "verified monitors and an oracle, not enumerated and not proved for all pods.")
+    ctx.extra["partial"] = True
     proved = ctx.lean_prove(THEOREMS)
     if not ctx.build_drv():
         return
     streams = [("decide", ctx.n(4000, 150000))]
     for stream, n in streams:
         ctx.diff_stream(stream, n, oracle=oracle)
+        imp = os.path.join(ctx.work, "%s.run.impl" % stream)
+        if os.path.exists(imp):
+            for l in ctx.read_lines(imp):
+                if l in ("err", "empty", "hit", "miss"):
+                    ctx.count("decide.selector-status.%s" % l)
+                elif l in ("0", "1"):
+                    ctx.count("decide.decision.%s" % l)
     # the oracle also runs on every generated case (second line, independent of the model)
     for stream, _ in streams:
         g = os.path.join(ctx.work, "%s.gen.ops" % stream)
@@ -420,14 +447,15 @@ MANIFEST = {
                    "API-defaulting variants and on generated pods; Lean monitors proved sound and complete (preservesB_iff, idempotentB_iff, "
                    "judge_*_sound/complete) judge the reduced pods, a Go oracle judges the full objects. Ten defects found this way were "
                    "fixed in /repo (F10a-d, F10f, F10h OTel attributes, F10i kube-inject ignored namespaces, F10j CronJob decision) or are registered as known "
-                   "(F10e, F10g)."),
+                   "(F10e, F10g, F10n CronJob pod-template annotations ignored by kube-inject); three more fixed in round 5 (F10k-m)."),
     "level_note": ("Trusted: Lean kernel + {propext, Classical.choice, Quot.sound}; the harness' realisation of abstract rows as real objects "
                    "and its reduction of pods; pkg/kube/inject/zz_verif_c19.go; Kubernetes selector semantics modelled from apimachinery "
                    "v0.36.1 and tied by differential testing only; a hand-written API-server defaulter. PARTIAL for the second half of the "
                    "statement: template rendering, strategic merge, overrides re-application and post-processing are observed through "
                    "verified monitors on fixtures and generated pods (quick ~2600 pods, thorough ~35000), not proved for all pods. Known "
                    "violations inside the quantifier: F10e (user istio-proxy with ports: ISTIO_META_POD_PORTS changes on re-injection), F10g "
-                   "(cluster/network variables: sidecar env order changes on re-injection). Assumes status/overrides annotations were written "
+                   "(cluster/network variables: sidecar env order changes on re-injection), F10n (kube-inject reads a CronJob's jobTemplate.metadata, "
+                   "not the pod template's). Assumes status/overrides annotations were written "
                    "by the injector under the same injector configuration; two templates that both define istio-proxy are not combined. Not "
                    "exercised: OpenShift UID handling, DetectNativeSidecar from node versions, ProxyConfig CRs."),
     "technique": ("Lean 4: exhaustive kernel-checked decision table regenerated from the real function (T-gen) + differential concrete model "
